@@ -277,6 +277,8 @@ def build_order(spec: dict) -> PolyhedralConeOrder:
 def random_cone_matrix(rng: np.random.Generator, m: int, K: int) -> np.ndarray:
     """Unit rows, K >= m facets, all making an acute angle with a common interior direction and
     spanning R^m (pointed cone with non-empty interior)."""
+    if K < m:
+        raise ValueError("a pointed cone with interior needs at least m facets")
     axis = np.ones(m) / math.sqrt(m)
     while True:
         rows = []
